@@ -73,8 +73,11 @@ C19Lists == IF Tier = "quick" THEN {l \in ListsUpTo3 : Len(l) <= 2} \cup Lists4 
 \* how the list reaches the response: through the constructor, add_header or with_header; "+wd" = the body is
 \* replaced (with_data) after the first half of the list, the rest is added afterwards (for ctor: by with_header)
 Routes == {"ctor", "add", "with", "ctor+wd", "add+wd", "with+wd"}
-C19Cases == [list : C19Lists, route : Routes, ncase : {"std", "lower", "upper", "mixed"}]
-C19Pick(c) == /\ (Tier # "quick" \/ c.ncase \in {"std", "mixed"} \/ Len(c.list) <= 1)
+\* ncase "lookalike": the ordinary headers xa / xb are spelled with names that extend, or are proper prefixes of, the
+\* special names (Server-Timing, Date-Generated, Upgrade-Insecure-Requests, Content-Typ, ...): they are ordinary headers
+C19Cases == [list : C19Lists, route : Routes, ncase : {"std", "lower", "upper", "mixed", "lookalike"}]
+C19Pick(c) == /\ (Tier # "quick" \/ c.ncase \in {"std", "mixed", "lookalike"} \/ Len(c.list) <= 1)
+              /\ (c.ncase = "lookalike" => (c.route \in {"ctor", "add", "with"} /\ \E i \in 1..Len(c.list) : c.list[i].n \in {"xa", "xb"}))
               /\ (c.route \in {"ctor+wd", "add+wd", "with+wd"} => Len(c.list) >= 1 /\ (Tier # "quick" \/ c.ncase \in {"std", "mixed"}))
 GenC19(f) == ndJsonSerialize(f, SetToSeq({c \in C19Cases : C19Pick(c)}))
 
